@@ -2184,17 +2184,19 @@ struct Value {
 
             case ValueType::String: {
                 string_.Reset();
-                // A string is smaller than the union, see below.
-                Memory::Initialize(&array_);
                 break;
             }
 
             default: {
-                // A number only uses half of the union; clear all of it so the value can become an empty
-                // container or string next (a value constructed from a number never initialized the rest).
-                Memory::Initialize(&array_);
             }
         }
+
+        // The next content may be any member of the union, and it is assigned to, not constructed: it has to find
+        // an empty container or string. A string and a number are smaller than the union (a value constructed
+        // from a number never initialized the rest), and what was stored through one member's type need not be
+        // seen by a read through another's (strict aliasing: at -O3 GCC dropped the stores of Reset() and the next
+        // assignment released the old storage a second time). Bytes may alias anything, so clear all of it as bytes.
+        Memory::SetToZero(&array_, sizeof(array_));
     }
 
     void copyValue(const Value &val) {
